@@ -17,7 +17,7 @@ import (
 // LONG = one 70000-byte line; LONGDOTS = 9000 dots (a dot at every offset of a long line, in
 // particular at every 4096-byte buffer boundary); P4096 = exactly 4096 bytes without a line end
 // (what follows it starts at a buffer boundary but NOT at a line start).
-var c02Tokens = []string{"a", ".", "..", ".a", "\r\n", "\n", "\r", "\x00", "\xff\xfe", " ", "LONG", "LONGDOTS", "P4096"}
+var c02Tokens = []string{"a", ".", "..", ".a", "\r\n", "\n", "\r", "\x00", "\xff\xfe", " ", "%d%%", "LONG", "LONGDOTS", "P4096"}
 
 var c02Big = map[string]string{"LONG": strings.Repeat("L", 70000), "LONGDOTS": strings.Repeat(".", 9000), "P4096": strings.Repeat("p", 4096)}
 
